@@ -29,6 +29,12 @@ CLAIMED = {
  "C10": dict(technique="explicit TLA+ specification (PathSem) model-checked by TLC for the filter law over a prefix x condition x document universe; the same groups of executions replayed on the real code and judged by a TLC trace specification (spec/Trace_Group.tla)",
   text="MC_C10: TLC enumerates 6 (quick) / 12 (thorough) prefix paths x 102 filter conditions (comparisons of @, @.a, @[*], @.size() with literals of every type; exists; starts with; like_regex; && || !; is unknown; a nested filter; conditions failing suppressibly and non-suppressibly; conditions that look at $) x all JSON trees up to 2 / 3 nodes plus nested-array documents x {lax, strict}, rewrites each condition into a predicate check over the item (@ -> $, $ -> a variable) and checks on PathSem that P ? (C) is the order-preserving subsequence of P's (lax: once-unwrapped) items whose rewritten condition yields true, and that in strict mode consecutive filters equal the filter on their conjunction. The runner executes P ? (C), P and the rewritten condition on every REAL item and Trace_Group checks the same relation on the real observations (no item altered, duplicated or reordered; unknown and false dropped without aborting; non-suppressible errors abort).",
   note=EXEC_NOTE + " Strict-mode prefixes containing .** are excluded from the rewriting law (the condition is evaluated leniently there, a fact found by model-checking the law on the specification).", ref="DESIGN.md section 7 C10"),
+ "C11": dict(technique="explicit TLA+ specification (PathSem + Kleene tables) model-checked by TLC over complete truth tables; the same groups of executions replayed on the real code and judged by a TLC trace specification (spec/Trace_Group.tla)",
+  text="MC_C11: TLC enumerates every ordered pair (p, q) of 15 conditions that realise true / false / unknown-by-type / unknown-by-suppressed-error / non-suppressible error (constants and document-dependent) x 16 documents x {lax, strict}, builds the 13 predicate checks p, q, p && q, p || q, !p, (p) is unknown, !!p, !(p && q), !p || !q, !(p || q), !p && !q, q && p, q || p and checks on PathSem that each compound's outcome is the Kleene table value of the operands' outcomes (a non-suppressible error of an evaluated operand is returned), plus commutativity, double negation, De Morgan (also as constant-level lemmas), is unknown never unknown, Match agreeing with Query, and exists(e) = emptiness of e / unknown only when e fails for 12 operand shapes. The runner executes the same 13 checks (Query and Match) and the exists groups, plus 4k (quick) / 100k (thorough) random condition pairs on random documents; Trace_Group evaluates the same law on the REAL outcomes of p and q.",
+  note=EXEC_NOTE, ref="DESIGN.md section 7 C11"),
+ "C20": dict(technique="explicit TLA+ state machine (Call / Run / Return with a cancelAt prophecy, spec/MC_C20.tla over PathSem with poll counting and exists-mode early exit) model-checked by TLC for every case x every poll; real executions cancelled at every poll judged by a TLC trace specification (spec/Trace_Cancel.tla), which also compares the poll counts the specification predicts with the real ones",
+  text="MC_C20: for a pool of 36 paths covering every node kind and every consumer of an operand's status x documents x modes x {collecting call, lax Exists}, TLC explores cancelAt = k for every k from 1 to the number of polls of the uncancelled run (+1) and checks: the k-th poll ends the execution with the context error, no items, for every entry point, silent or not; no poll happens after it; an execution that ends before its k-th poll is unchanged. The runner measures, with a counting context.Context, the polls of each entry point under each option set, repeats the call with the context done from the k-th Done() on for EVERY k, with context.Canceled and DeadlineExceeded, verbose and silent, five entry points (137k calls quick on the pool + 146k on random paths), and Trace_Cancel checks on every call that observed the flip: error wraps ErrExecution and the context's error, no items, no boolean, no NULL, at most size-of-path further polls. Poll counts predicted by PathSem equal the real ones on the whole pool (reported as spec_drift otherwise).",
+  note="Trusted: TLC, the counting context of the runner (a cancellation between two polls is indistinguishable from one immediately before the next poll), the wire format. 'After a bounded number of further steps' is checked as 'at most as many further polls as the path has nodes'.", ref="DESIGN.md section 7 C20"),
  "C14": dict(technique=TECH,
   text="MC_C14: TLC enumerates all arrays of length 0..3 (quick) / 0..4 (thorough) over {null, 1, \"x\", [2], {\"a\":1}}, arrays of negative / fractional / out-of-int32 numbers and non-arrays x subscript lists built from abstract bounds (integers and halves, last, last+-k, every ordered pair as a range, lists, non-numeric / multi-valued / missing / out-of-int32 bounds, bounds read from the document, nested subscripts) x {lax, strict} and checks PathSem against a positional oracle computed from the abstract bounds; the universe, with float64 and json.Number spellings of every document, is replayed on the real code and judged by Trace_Exec.",
   note=EXEC_NOTE, ref="DESIGN.md section 7 C14"),
